@@ -7,6 +7,7 @@ import re
 from .. import kj, smlib
 from ..check import VERIF, unjson
 from ..kj import scratch
+from translator import csmini
 
 LEVEL = "proof"
 
@@ -213,7 +214,88 @@ def check_decls(table, spec, files):
     return None
 
 
-def one_case(ctx, table, spec, rng_bits):
+def exec_real(files, table, spec, evs_with_args, bits):
+    """Execute the REAL generated text (context, internals, state machine; non-threaded branch of the preprocessor) with the
+    statement interpreter of translator/csmini.py: construct the machine with a recording context, call Trigger<e>(args) per
+    event, read every Is<State>().  Returns ([(callbacks, states whose Is..() is true)], None) or (None, why)."""
+    st, _ev, _ac, gu = smlib.names(table)
+    texts = []
+    for f in ("%sContext.cs", "%sInternals.cs", "%sStateMachine.cs"):
+        texts.append(re.sub(r"(?m)^\s*#define SM_THREAD_\w+\s*$", "", files[f % NAME]))
+    try:
+        classes = csmini.parse_program(texts, {"SM_THREAD_0"})
+    except csmini.CsError as e:
+        return None, "the generated C# is outside the interpreted subset: %s" % e
+    trace, count = [], [0]
+
+    def cb(name, args):
+        trace.append((name, [(a.cls, dict(a.fields)) if isinstance(a, csmini.Obj) else a for a in args]))
+        if name in gu:
+            i = count[0]
+            count[0] += 1
+            return bits[i] if i < len(bits) else False
+        return None
+    it = csmini.Interp(classes)
+    smc = "%sStateMachine" % NAME
+    steps = []
+    try:
+        sm = it.new(smc, [csmini.External(cb)])
+
+        def snapshot():
+            iss = [s for s in st if it.invoke(it.find_method(smc, "Is" + s), sm, None, [])]
+            steps.append((list(trace), iss))
+            del trace[:]
+        snapshot()
+        for ev, args in evs_with_args:
+            m = it.find_method(smc, "Trigger" + ev)
+            if m is None:
+                return None, "no Trigger%s in the generated state machine" % ev
+            it.invoke(m, sm, None, list(args))
+            snapshot()
+    except csmini.CsError as e:
+        return None, "executing the generated C# raised: %s (after %d steps; callbacks so far %r)" % (e, len(steps), [n for n, _a in trace])
+    return steps, None
+
+
+def quiet_interp(table, evs, bits):
+    return [([c for c in cbs if c[0] != "notrans"], s) for cbs, s in smlib.py_table_interp(table, evs, bits)]
+
+
+def exec_case(ctx, files, table, spec, evs_with_args, bits):
+    """The property on the executed real text; returns a failure description or None."""
+    evs = [e for e, _a in evs_with_args]
+    want = quiet_interp(table, evs, bits)
+    if ctx.km is not None:
+        r = ctx.km.call("run_cs", table, evs, smlib.bits_arg(bits))
+        q = smlib.km_steps(ctx.km.call("table_interp_quiet", table, evs, smlib.bits_arg(bits)))
+        if q != want:
+            ctx.tie_broken("Spec table_interp_quiet vs the Python reading of the property", {"table": table, "events": evs, "bits": bits})
+        if r[0] != b"ok" or smlib.km_steps(r[1]) != q:
+            ctx.tie_broken("extracted CsSM.run_cs differs from extracted table_interp_quiet although C10_sem is proved", {"table": table, "events": evs, "bits": bits})
+    steps, why = exec_real(files, table, spec, evs_with_args, bits)
+    if steps is None:
+        return why
+    members = {nm: [m[0] for m in mem] for nm, mem in spec["structs"]}
+    for i, ((tr, iss), (cbs, st)) in enumerate(zip(steps, want)):
+        exp = []
+        for kind, nm, e in cbs:
+            exp.append({"guard": nm, "action": nm, "exit": "On%sExit" % nm, "entry": "On%sEntry" % nm}[kind])
+        got = [n for n, _a in tr]
+        where = "construction" if i == 0 else "Trigger%s (event %d)" % (evs[i - 1], i)
+        if got != exp:
+            return "%s: the generated C# calls %r, the table says %r" % (where, got, exp)
+        if iss != [st]:
+            return "%s: Is<State>() true for %r, the table says %r" % (where, iss, st)
+        if i > 0:
+            ev, args = evs_with_args[i - 1]
+            payload = dict(zip(members.get(ev, []), args))
+            for (n, a), (kind, _nm, _e) in zip(tr, cbs):
+                if kind == "action" and (len(a) != 1 or a[0][0] != ev or {k: v for k, v in a[0][1].items() if k in payload} != payload):
+                    return "%s: action %s received %r, triggered %s%r" % (where, n, a, ev, payload)
+    return None
+
+
+def one_case(ctx, table, spec, rng_bits, evs_with_args=None):
     with scratch() as d:
         kj.generate("cs", d, table=table, iface=smlib.build_iface(spec), name=NAME)
         files = {}
@@ -264,6 +346,10 @@ def one_case(ctx, table, spec, rng_bits):
     r = check_decls(table, spec, files)
     if r:
         return r, "cs-declarations"
+    if evs_with_args is not None:
+        r = exec_case(ctx, files, table, spec, evs_with_args, rng_bits[0] + rng_bits[1])
+        if r:
+            return r, "cs-executed-behaviour"
     return None, None
 
 
@@ -275,7 +361,13 @@ def gen_case(rng, i):
         tags["StateMachineThread"] = c
     spec = smlib.random_iface_spec(rng, table, "cs", tags, extra_events=rng.choice([0, 0, 1]))
     bits = [[rng.random() < 0.5 for _ in range(8)] for _ in range(4)] + [[False] * 8, [True] * 8]
-    return table, spec, bits
+    evnames = smlib.names(table)[1] + [nm for nm, _m in spec["structs"] if nm not in smlib.names(table)[1]]
+    evs = []
+    for _ in range(rng.randint(0, 12)):
+        e = rng.choice(evnames)
+        nargs = next((len(mem) for nm, mem in spec["structs"] if nm == e), 0)
+        evs.append([e, [rng.randint(0, 99) for _ in range(nargs)]])
+    return table, spec, bits, evs
 
 
 def run(ctx):
@@ -288,8 +380,8 @@ def run(ctx):
     smlib.ttmodel_batch(ctx, ctx.budget(400, 5000))   # the table model this property's model is built on
     n = ctx.budget(2500, 30000)
     for i in range(n):
-        table, spec, bits = gen_case(ctx.rng, i)
-        fail, key = one_case(ctx, table, spec, bits)
+        table, spec, bits, evs = gen_case(ctx.rng, i)
+        fail, key = one_case(ctx, table, spec, bits, evs)
         tags = smlib.shape_tags(table)
         ctx.case((json.dumps(table), json.dumps(spec, sort_keys=True)), nontrivial=bool(tags & {"multi_row_group", "row_without_target", "target_only_state"}))
         for tg in tags:
@@ -297,8 +389,9 @@ def run(ctx):
         if i < 2:
             ctx.sample({"table": table, "iface": spec})
         if fail:
-            small = smlib.shrink_rows(table, lambda t: one_case(ctx, t, spec, bits)[0] is not None)
-            ctx.violation(fail, {"table": small, "iface": spec, "bits": bits, "finding_key": key, "original_table": table})
+            small = smlib.shrink_rows(table, lambda t: one_case(ctx, t, spec, bits, [ev for ev in evs if ev[0] in smlib.names(t)[1] + [nm for nm, _m in spec["structs"]]])[0] is not None)
+            evs = [ev for ev in evs if ev[0] in smlib.names(small)[1] + [nm for nm, _m in spec["structs"]]]
+            ctx.violation(fail, {"table": small, "iface": spec, "bits": bits, "events": evs, "finding_key": key, "original_table": table})
 
 
 def replay(ctx, data):
@@ -306,7 +399,7 @@ def replay(ctx, data):
         print(json.dumps(data.get("no_longer_checks"), indent=1)[:3000])
         return False
     bits = data.get("bits") or [[False] * 8, [True] * 8, [True, False] * 4, [False, True] * 4]
-    fail, _key = one_case(ctx, data["table"], data["iface"], bits)
+    fail, _key = one_case(ctx, data["table"], data["iface"], bits, data.get("events", []))
     if fail:
         print("replay:", fail)
     return fail is None
